@@ -7,6 +7,7 @@
 //! `from_real.rs`) runs first; so do the in-fragment sources of the repository's own test suite.
 //! A disagreement is shrunk (delta debugging on the AST) before it is reported.
 mod ast;
+mod frag;
 mod from_real;
 mod progen;
 mod shrink;
@@ -428,6 +429,60 @@ fn main() {
         }
     }
     ev.set_extra("suite_sources", json!({"total": suite_total, "compared": suite_compared}));
+
+    // ---- 2b. fragment compiler model vs the real compiler: instruction-sequence equality ------------
+    {
+        let b = qverif::run::builtins();
+        let nfrag = opts.tier.pick(1500u64, 10000u64);
+        let mut equal = 0u64;
+        for i in 0..nfrag {
+            let mut r = Rng::for_case(opts.seed ^ 0xF4A6, i);
+            let chain = frag::gen_chain(&mut r, 3, true);
+            let src = frag::src_chain(&chain);
+            let unit = match compile_program(&src, &b) {
+                Ok(u) => u,
+                Err(e) => {
+                    ev.hit("fragment.rejected");
+                    eprintln!("fragment program rejected: {src}: {e:?}");
+                    continue;
+                }
+            };
+            let case = frag::prepare(&chain, &unit);
+            ev.case(&format!("frag:{src}"), false);
+            let answer = match &case.request {
+                Some(req) => ck.model.ask(req),
+                None => "no-request (instruction stream has fewer constants / tuples than the term)".to_string(),
+            };
+            let model_code = answer.strip_prefix("ok").map(|s| s.trim().to_string());
+            if case.checks_ok && model_code.as_deref() == Some(case.real.as_str()) {
+                equal += 1;
+                ev.hit("fragment.instruction-sequences-equal");
+                if i < 3 {
+                    ev.sample(json!({"fragment_source": src, "instructions": case.real}));
+                }
+            } else {
+                ev.hit("fragment.mismatch");
+                let what = format!(
+                    "the fragment compiler model (Compile0.lean, proved correct against M-VM) and quiver-compiler emit different code for `{}`: compiler `{}`, model `{}` {}",
+                    src, case.real, answer, case.note
+                );
+                // the oracle on the implementation: does the compiled program still compute the spec's value?
+                let conv = from_real::convert_source(&src);
+                let mut concrete = false;
+                let mut replay = json!({"broken": "correspondence compile0 model<->compiler.rs (instruction-sequence equality)", "source": src, "compiler": case.real, "model": answer, "note": case.note});
+                if let Ok(p) = conv {
+                    let (v, m, imp) = ck.check(&p);
+                    if let Verdict::Disagree { model, imp: i2 } = v {
+                        concrete = true;
+                        replay = json!({"source": src, "sexpr": p.sx(), "implementation": i2, "reference": model, "compiler_instructions": case.real, "model_instructions": answer});
+                    }
+                    let _ = (m, imp);
+                }
+                ev.violation("fragment kind=instruction-sequence-differs", &what, replay, concrete);
+            }
+        }
+        ev.set_extra("fragment_programs", json!({"generated": nfrag, "instruction_sequences_equal": equal}));
+    }
 
     // ---- 3. generated programs ---------------------------------------------------------------------
     let n = opts.tier.pick(25000u64, 150000u64);
